@@ -209,6 +209,18 @@ CHECKS = {
         "called directly with one shared cache; the click command line itself is not in the loop. Bounds: 15 directories, 6 names.",
         "DESIGN.md 3/C19",
     ),
+    "C18": (
+        "exploration",
+        "property-based testing with a canonical renderer (must be accepted unchanged) and whitespace manglings (must converge to an equivalent OK file) (Hypothesis)",
+        "Generated trees rendered in the documented format must be reported OK, stay byte-identical with and without --replace and leave "
+        "no .new file; whitespace manglings of them (other indentation widths, tabs, trailing blanks, shifted entries) that both parsers "
+        "still read as the same tree must reach an OK file within 5 --replace passes, on which a further pass is the identity and which "
+        "both parsers read as the same configuration as the mangled original; the same for sdkconfig.rename files with the fixable "
+        "defects. Round-trip / convergence oracles over a generated input space.",
+        "Trusted: vk/render.py's canonical style is what docs/en/kconfcheck describes; vk/treesig.py decides 'same configuration' "
+        "(help texts modulo the indentation of their lines). Macros and named choices are not generated here. Bounds: <=10 options.",
+        "DESIGN.md 3/C18",
+    ),
 }
 
 NOT_YET = {}
